@@ -152,7 +152,7 @@ type casePath struct {
 }
 
 func (c *Ctx) typeCasePaths(fd *ast.FuncDecl, x *SX, par types.Object) ([]casePath, string) {
-	paths := x.Run(fd)
+	paths := assertByConds(x.Run(fd)) // `case Object, List: return v.(field)` hands on v
 	var out []casePath
 	for _, p := range paths {
 		if p.Why != "" {
@@ -1069,6 +1069,10 @@ func c12R4(c *Ctx) {
 					case *ssa.TypeAssert:
 						if types.Identical(x.AssertedType, field) {
 							n++
+							if fi, isI := field.Underlying().(*types.Interface); isI && guardedByTypeTest(x.Block(), x.X, func(t types.Type) bool { return types.Implements(t, fi) }) {
+								c.Ob("C12.R4", "assert-to-field/"+a.FuncName(fn), x.Pos()).Ok("the asserted value passed a test for a type all of whose values are fields (a container interface) on every way here: the assertion hands on a container")
+								continue
+							}
 							c.Ob("C12.R4", "assert-to-field/"+a.FuncName(fn), x.Pos()).Fail("a value is type-asserted to the field interface: an un-normalised value could enter a spine")
 						}
 					}
@@ -1124,4 +1128,37 @@ func transientNilOK(c *Ctx, name string) bool {
 		}
 	}
 	return false
+}
+
+// guardedByTypeTest: every way from the function's entry to block b passes, last of all branchings on it, the true edge of a comma-ok
+// type test `v.(T)` of the very value v with impl(T) (type-switch cases compile to such tests).
+func guardedByTypeTest(b *ssa.BasicBlock, v ssa.Value, impl func(types.Type) bool) bool {
+	seen := map[*ssa.BasicBlock]bool{}
+	var up func(cur *ssa.BasicBlock) bool
+	up = func(cur *ssa.BasicBlock) bool {
+		if seen[cur] {
+			return true
+		}
+		seen[cur] = true
+		if len(cur.Preds) == 0 {
+			return false // reached the entry unguarded
+		}
+		for _, p := range cur.Preds {
+			guarded := false
+			if len(p.Instrs) > 0 {
+				if br, ok := p.Instrs[len(p.Instrs)-1].(*ssa.If); ok && len(p.Succs) == 2 && p.Succs[0] == cur && p.Succs[1] != cur {
+					if ex, ok := br.Cond.(*ssa.Extract); ok && ex.Index == 1 {
+						if ta, ok := ex.Tuple.(*ssa.TypeAssert); ok && ta.CommaOk && ta.X == v && impl(ta.AssertedType) {
+							guarded = true
+						}
+					}
+				}
+			}
+			if !guarded && !up(p) {
+				return false
+			}
+		}
+		return true
+	}
+	return up(b)
 }
